@@ -125,15 +125,21 @@ Definition swhid_of_file (k : argkind) (p : pathref) : obj + crash :=
   end.
 
 (* swhid_of_dir / model_of_dir = Directory.from_disk(path, filter): os.scandir
-   follows a link given as top path; the walker works on bytes paths only *)
-Definition swhid_of_dir (k : argkind) (t : ptag) : obj + crash :=
-  match stat k with
-  | FDir => match t with
-            | PStr => inr CrTypeError
-            | PBytes => inl (if islink k then ODirAtLinkTarget else ODirAtPath)
-            end
-  | FReg => inr CrNotADirectory
-  | _ => inr CrFileNotFound
+   follows a link given as top path; the walker works on bytes paths only (a
+   str path fails when the exclusion filter joins it with the bytes patterns,
+   else when the first entry is stored under a str name) *)
+Definition swhid_of_dir (k : argkind) (t : ptag) (excluding : bool) : obj + crash :=
+  match t, excluding with
+  | PStr, true => inr CrTypeError
+  | _, _ =>
+      match stat k with
+      | FDir => match t with
+                | PStr => inr CrTypeError
+                | PBytes => inl (if islink k then ODirAtLinkTarget else ODirAtPath)
+                end
+      | FReg => inr CrNotADirectory
+      | _ => inr CrFileNotFound
+      end
   end.
 
 Definition swhid_of_git_repo (k : argkind) : obj + crash :=
@@ -256,7 +262,7 @@ Definition identify_object (v : variant) (c : cfg) : res :=
             let tag := if follow && v_realpath_str v then PStr else PBytes in
             match t with
             | TContent => lift (swhid_of_file k p) false
-            | _ => lift (swhid_of_dir k tag) (excl c)      (* exclude_patterns: empty tuple or non-empty set *)
+            | _ => lift (swhid_of_dir k tag (excl c)) (excl c)      (* exclude_patterns: empty tuple or non-empty set *)
             end
         | TOrigin => ROk OOrigin false
         | TSnapshot => lift (swhid_of_git_repo k) false
@@ -311,7 +317,7 @@ Definition identify_gen (v : variant) (c : cfg) : outcome :=
       else if rectype_rejects v (ty c) then Usage
       else
         (* path = os.fsencode(objects[0]); model_of_dir(path, exclude_patterns).iter_tree() *)
-        match swhid_of_dir (arg c) PBytes with
+        match swhid_of_dir (arg c) PBytes (excl c) with
         | inl o => Print o (excl c) (fname c) true
         | inr cr => Crash cr
         end
